@@ -132,24 +132,26 @@ def assign_of(st, ntargets):
 
 def with_block(r, target_code, ctx_code, body_len, stash_text):
     """try: <tmp> = __ctx__; __ctx__ = __fpy_real; <target> = __ctx__ = <ctx>; <body>  finally: __ctx__ = <tmp>"""
-    is_try = cons_name(r) == 'Try'
-    shape = is_try and len(r.handlers) == 0 and len(r.orelse) == 0 and len(r.finalbody) == 1
-    s0 = r.body[0] if shape else None
-    s1 = r.body[1] if shape else None
-    s2 = r.body[2] if shape else None
-    fin = r.finalbody[0] if shape else None
-    stash_ok = shape and assign_of(s0, 1) and cons_name(s0.targets[0]) == 'Name' and cons_name(s0.targets[0].ctx) == 'Store' \
+    names = ('is_try_finally', 'body_len', 'stash_active_context_first', 'constructor_under_real', 'bind_target_and_activate',
+             'restore_in_finally', 'restore_reads_the_stash', 'stash_name_is_the_fresh_identifier')
+    shape = cons_name(r) == 'Try' and len(r.handlers) == 0 and len(r.orelse) == 0 and len(r.finalbody) == 1
+    if not shape:
+        return {n: False for n in names}
+    if not (len(r.body) >= 3):          # (a Python `if`: the path forks on a symbolic length)
+        return {n: (n == 'is_try_finally') for n in names}
+    s0, s1, s2, fin = r.body[0], r.body[1], r.body[2], r.finalbody[0]
+    stash_ok = assign_of(s0, 1) and cons_name(s0.targets[0]) == 'Name' and cons_name(s0.targets[0].ctx) == 'Store' \
         and is_name(s0.value, '__ctx__', 'Load')
-    restore_ok = shape and assign_of(fin, 1) and is_name(fin.targets[0], '__ctx__', 'Store') \
+    restore_ok = assign_of(fin, 1) and is_name(fin.targets[0], '__ctx__', 'Store') \
         and cons_name(fin.value) == 'Name' and cons_name(fin.value.ctx) == 'Load'
     return {
-        'is_try_finally': shape,
-        'body_len': (len(r.body) == 3 + body_len) if shape else False,
+        'is_try_finally': True,
+        'body_len': len(r.body) == 3 + body_len,
         'stash_active_context_first': stash_ok,
-        'constructor_under_real': (assign_of(s1, 1) and is_name(s1.targets[0], '__ctx__', 'Store')
-                                   and is_name(s1.value, '__fpy_real', 'Load')) if shape else False,
-        'bind_target_and_activate': (assign_of(s2, 2) and s2.targets[0] == target_code
-                                     and is_name(s2.targets[1], '__ctx__', 'Store') and s2.value == ctx_code) if shape else False,
+        'constructor_under_real': assign_of(s1, 1) and is_name(s1.targets[0], '__ctx__', 'Store')
+                                  and is_name(s1.value, '__fpy_real', 'Load'),
+        'bind_target_and_activate': assign_of(s2, 2) and s2.targets[0] == target_code
+                                    and is_name(s2.targets[1], '__ctx__', 'Store') and s2.value == ctx_code,
         'restore_in_finally': restore_ok,
         'restore_reads_the_stash': (fin.value.id == s0.targets[0].id) if (stash_ok and restore_ok) else False,
         'stash_name_is_the_fresh_identifier': (s0.targets[0].id == stash_text) if stash_ok else False,
